@@ -142,9 +142,14 @@ class Printer(PrinterBase):
         return f"{var}: {typ} = {value}"
 
     def make_constant(self, like, value):
-        s = str(value)
         # the emitted source imports math only: spell the special values through it
-        return {"inf": "math.inf", "-inf": "-math.inf", "nan": "math.nan"}.get(s, s)
+        special = {"inf": "math.inf", "-inf": "-math.inf", "nan": "math.nan"}
+        if isinstance(value, complex) or type(value).__name__.startswith("complex"):
+            # str(complex) loses signed zeros ((-1-0j) evaluates to -1+0j) and spells infinities as infj
+            re, im = (special.get(str(float(v)), str(float(v))) for v in (value.real, value.imag))
+            return f"complex({re}, {im})"
+        s = str(value)
+        return special.get(s, s)
 
     def show_value(self, var):
         return f'print("{var}=", {var})'
